@@ -149,7 +149,15 @@ static void build_streams(Scn &s, const std::string &ce_value, const std::string
     s.body_at = at; s.body_len = len; s.multi_piece_framing = multi;
 }
 
+static Scn gen_lzma_twice() { // "lzma, lzma": the LZMA layer limit (default 1) decides how many of the two layers are removed, whatever the general layer limit is
+    Scn s; s.pers = rcx::range(0, 9); s.mode = 0; s.dir = 0; std::string payload; int n = rcx::range(1, 300); for (int i = 0; i < n; i++) payload += (char)('a' + rcx::range(0, 5));
+    std::vector<std::string> st(3); st[2] = payload; st[1] = lzpack(st[2], 4096); st[0] = lzpack(st[1], 4096);
+    static const int LL[] = {-2, 0, 3}; s.layer_limit = LL[rcx::range(0, 2)]; s.lzma_layers = rcx::chance(1, 3) ? 2 : -1;
+    int applied = s.lzma_layers == 2 ? 2 : 1; s.expect = st[applied]; for (int j = applied + 1; j <= 2; j++) s.later_stages.push_back(st[j]);
+    build_streams(s, rcx::coin() ? "lzma, lzma" : "lzma,lzma", st[0], rcx::range(0, 2)); s.label = "lzma,lzma/response"; return s;
+}
 static Scn gen_fidelity() {
+    if (C07_HAVE_LZMA && rcx::chance(1, 14)) return gen_lzma_twice();
     Scn s; s.pers = rcx::range(0, 9); s.mode = 0; s.dir = rcx::chance(1, 5) ? 1 : 0;
     std::string payload = gen_payload();
     int nl = (s.dir == 0 && rcx::chance(1, 4)) ? 2 : 1; if (s.dir == 0 && rcx::chance(1, 30)) nl = 3;
@@ -161,6 +169,8 @@ static Scn gen_fidelity() {
     int L = s.layer_limit == -2 ? 2 : s.layer_limit; int applied = nl; if (L != 0 && applied > L) applied = L;
     s.expect = stages[applied]; for (int j = applied + 1; j <= nl; j++) s.later_stages.push_back(stages[j]);
     int framing = rcx::range(0, s.dir == 0 ? 2 : 1);
+    // a small bomb limit must not cut an ordinary body short: the limit only applies together with the 2048 ratio
+    if (rcx::chance(1, 4)) { static const long BL[] = {1000, 8192, 20000}; long bl = BL[rcx::range(0, 2)]; bool ordinary = true; for (int j = 0; j < nl; j++) if (stages[j].size() * 1500 < stages[nl].size()) ordinary = false; if (ordinary) s.bomb = bl; }
     build_streams(s, ce, stages[0], framing);
     s.label = ""; for (int j = 0; j < nl; j++) { if (j) s.label += ","; s.label += KN[kinds[j]]; } s.label += s.dir ? "/request" : "/response";
     return s;
@@ -187,6 +197,7 @@ static Scn gen_bomb(bool thorough) {
     if (nl == 1 && C07_HAVE_LZMA && n <= 9000000 && rcx::chance(1, 4)) { body = lzpack(body, 65536); ce = "lzma"; s.label_extra = "_lzma"; } // LZMA reaches far higher ratios than deflate
     else for (int j = 0; j < nl; j++) { int k = rcx::range(0, 2); body = k == K_GZIP ? zpack(body, 31, 9, 0) : k == K_DEFLATE_RAW ? zpack(body, -15, 9, 0) : zpack(body, 15, 9, 0); ce = std::string(k == K_GZIP ? "gzip" : "deflate") + (ce.empty() ? "" : ",") + ce; }
     build_streams(s, ce, body, rcx::range(0, s.dir == 0 ? 2 : 1));
+    if (s.dir == 0 && rcx::chance(1, 3)) { std::string rb((size_t)rcx::range(1000, 9000), 'q'); s.rq = "POST /c07 HTTP/1.1\r\nHost: h.example\r\nContent-Length: " + std::to_string(rb.size()) + "\r\n\r\n" + rb; s.label_extra += "_after_request_body"; } // (the response bound must not be computed from request bytes)
     s.label = "bomb_" + std::to_string(nl) + "_layers" + s.label_extra + (s.dir ? "/request" : "/response");
     return s;
 }
